@@ -2,7 +2,7 @@ HOOK_COMMITS = []
 ENGINES = [
     {"name": "explore", "path": "vf/core/explore.py", "serves_properties": ["C01", "C02", "C03", "C07", "C08", "C09", "C11", "C13", "C14", "C15", "C04", "C12", "C16", "C17", "C18", "C20"], "kind_free_text": "explicit-state BFS with state merging over the real objects; bounded product enumeration; deviation-bounded stateless DFS"},
     {"name": "vthreads", "path": "vf/core/vthreads.py", "serves_properties": ["C01", "C05", "C06", "C07", "C08", "C09", "C14", "C19", "C20"], "kind_free_text": "baton scheduler over real threads with scheduler-aware queue/future/executor shims and sys.settrace line points; deviation-bounded DFS over schedules; deadlock and livelock detection"},
-    {"name": "vloop", "path": "vf/core/vloop.py", "serves_properties": ["C01", "C02", "C05", "C06", "C07", "C08", "C09", "C10", "C19", "C20"], "kind_free_text": "virtual asyncio event loop stepped by hand: ready-queue steps, environment events and timers are explicit choices explored exhaustively by explore.dfs"},
+    {"name": "vloop", "path": "vf/core/vloop.py", "serves_properties": ["C01", "C02", "C05", "C06", "C07", "C08", "C09", "C10", "C11", "C19", "C20"], "kind_free_text": "virtual asyncio event loop stepped by hand: ready-queue steps, environment events and timers are explicit choices explored exhaustively by explore.dfs"},
 ]
 NOT_APPLICABLE = {}
 CHECKS = {
@@ -27,25 +27,25 @@ CHECKS = {
     "C17": dict(
         engine="explore", level="model_checking", design_ref="DESIGN.md §3 C17",
         technique="explicit-state BFS over operation histories of the real mapping with state merging, step-wise comparison with a list-of-pairs model",
-        text="Breadth-first search over all operation sequences up to depth 4 (thorough 6) over 37 operations (2 keys x 3 values incl. the empty string) from 5 initial pair lists; every transition replays the history on a fresh real MutableMultiMapping and compares the operation result and eleven views with a list-of-pairs reference; every reachable pair list is loaded into the immutable classes; query-string round trip for all lists of <=2 pairs over an 8-symbol alphabet.",
+        text="Breadth-first search over all operation sequences up to depth 4 (thorough 6) over 37 operations (2 keys x 3 values incl. the empty string) from 5 initial pair lists; every transition replays the history on a fresh real MutableMultiMapping and compares the operation result and eleven views with a list-of-pairs reference; every reachable pair list is loaded into the immutable classes; query-string round trip for all lists of <=2 pairs over an 8-symbol alphabet. Also: construction from tuples, generators, iterators, zip/map objects, dicts and other mappings.",
         note="states are merged on the public views (multi_items, key order); depth bound; small key/value alphabet",
     ),
     "C11": dict(
         engine="explore", level="model_checking", design_ref="DESIGN.md §3 C11",
         technique="explicit-state BFS over call histories of the real WebSocket wrapper x server scripts x send-fault positions, judged by a protocol automaton",
-        text="Breadth-first search to depth 5 (thorough 7) over 15 wrapper operations x 7 server scripts (connect, <=2 text/bytes frames, disconnect) x 4 server-send fault positions; every transition replays the history on a fresh real WebSocket over a scripted server; the forwarded events are judged by a prefix-closed websocket application automaton, plus checks that raising calls forward nothing, no receive after disconnect, frames in order once, one close, monotone states; denial-response and shortcut dispatch as a product.",
-        note="server answers immediately (one call = one atomic step); concurrent callers are outside the statement; depth bound",
+        text="Breadth-first search to depth 5 (thorough 7) over 15 wrapper operations x 7 server scripts (connect, <=2 text/bytes frames, disconnect) x 4 server-send fault positions; every transition replays the history on a fresh real WebSocket over a scripted server; the forwarded events are judged by a prefix-closed websocket application automaton, plus checks that raising calls forward nothing, no receive after disconnect, frames in order once, one close, monotone states; denial-response and shortcut dispatch as a product. Also: two connections open at once in every merge order (each must behave as alone); several tasks calling one wrapper while the server's send() completes at the explorer's choice (every schedule); a streaming denial response whose client leaves mid-body.",
+        note="in the BFS the server answers immediately (one call = one atomic step); concurrent callers are covered by six fixed task programs only; depth bound",
     ),
     "C13": dict(
         engine="explore", level="model_checking", design_ref="DESIGN.md §3 C13",
         technique="explicit-state BFS over header-mapping mutation histories with emission on both gateways; exhaustive cookie and redirect strings over a hostile alphabet",
-        text="BFS to depth 3 (thorough 4) over 290 header-mapping mutations (6 keys x 8 values incl. CR/LF/NUL/CRLF injection, all mutation paths) against a dict that refuses control characters, every reachable state emitted through both gateway drivers; every cookie name x value up to length 2 (3) over 13 hostile symbols with default and full attribute sets (attribute list must be exactly the expected one, one header, ASCII); every redirect target up to length 3 over 11 symbols as str and as URL.",
+        text="BFS to depth 3 (thorough 4) over 290 header-mapping mutations (6 keys x 8 values incl. CR/LF/NUL/CRLF injection, all mutation paths) against a dict that refuses control characters, every reachable state emitted through both gateway drivers; every cookie name x value up to length 2 (3) over 13 hostile symbols with default and full attribute sets (attribute list must be exactly the expected one, one header, ASCII); every redirect target up to length 3 over 11 symbols as str and as URL. Also: runs of 1..40, 100 and 1000 escapable characters followed by a planted attribute as cookie value and name; delete_cookie with every hostile name.",
         note="constructor headers= argument not covered (not a mutating operation); cookie path/domain outside the statement; bounded string lengths",
     ),
     "C10": dict(
         engine="vloop", level="model_checking", design_ref="DESIGN.md §3 C10",
         technique="exhaustive access-sequence enumeration against a caching reference model (WSGI, ASGI) plus stateless exploration of every task/message interleaving on a virtual asyncio loop",
-        text="Sequential: every access sequence up to depth 3 (thorough 4) over {body, stream fully, stream first chunk, json, form, close} x 5 body kinds x all splits into <=3 reads/messages incl. empty messages and (ASGI) disconnect positions, step-wise against a reference model of the documented caching rules, with identity of repeated results and receive accounting. Concurrent (ASGI): 1225 two-task programs (thorough adds three-task programs) x message scripts; every interleaving of task steps and in-order message deliveries is executed on the real Request under a virtual event loop; each result must be complete or a documented error, no task may be left stuck, no receive after the final message. Two different requests in progress at once on one loop (one Request object each): every interleaving of their message deliveries; results must equal those obtained alone.",
+        text="Sequential: every access sequence up to depth 3 (thorough 4) over {body, stream fully, stream first chunk, json, form, close} x 5 body kinds x all splits into <=3 reads/messages incl. empty messages and (ASGI) disconnect positions, step-wise against a reference model of the documented caching rules, with identity of repeated results and receive accounting. Concurrent (ASGI): 1225 two-task programs (thorough adds three-task programs) x message scripts; every interleaving of task steps and in-order message deliveries is executed on the real Request under a virtual event loop; each result must be complete or a documented error, no task may be left stuck, no receive after the final message. Two different requests in progress at once on one loop (one Request object each): every interleaving of their message deliveries; results must equal those obtained alone. Also: is_disconnected() polls where no request message is waiting (ASGI).",
         note="virtual loop models the asyncio contract (FIFO ready queue, I/O completions at arbitrary points); is_disconnected() and cancellation outside the alphabet; bodies are five fixed small bodies",
     ),
     "C01": dict(
@@ -57,73 +57,73 @@ CHECKS = {
     "C15": dict(
         engine="explore", level="model_checking", design_ref="DESIGN.md §3 C15",
         technique="the C01 all-partitions decoder search with a buffer-bound invariant on every transition; exhaustive limit settings around the exact totals x chunkings; helper-level observation from the chunk iterator",
-        text="Limits: 14 forms x max_form_parts in {n-1,n,n+1} x max_form_memory_size in {None,total-1,total,total+1} x {whole, byte-wise, every 1-cut} x {sync, async}: 413 iff a limit is exceeded. Buffering: on every transition of the all-partitions search len(buffer) <= chunk + len(CRLF--boundary) + 4 while a part body is read; at helper level every chunk size 1..64 on parts with a leading CR/LF and a 600-byte run, reading the decoder buffer from the helper's frame and requiring a 100-byte field limit to trip within the bound; one scaled instance (256 KiB, thorough 1 MiB).",
+        text="Limits: 14 forms x max_form_parts in {n-1,n,n+1} x max_form_memory_size in {None,total-1,total,total+1} x {whole, byte-wise, every 1-cut} x {sync, async}: 413 iff a limit is exceeded. Buffering: on every transition of the all-partitions search len(buffer) <= chunk + len(CRLF--boundary) + 4 while a part body is read; at helper level every chunk size 1..64 on parts with a leading CR/LF and a 600-byte run, reading the decoder buffer from the helper's frame and requiring a 100-byte field limit to trip within the bound; one scaled instance (256 KiB, thorough 1 MiB). Also: uploads with an empty file name, zero-length chunks inside the stream, delimiter look-alikes followed by many lines, default limits at their default values.",
         note="helper-level observation depends on the helper's local variable name `parser` (skipped and counted if absent); slack constant 4",
     ),
     "C16": dict(
         engine="explore", level="exploration", design_ref="DESIGN.md §3 C16",
         technique="bounded exhaustive enumeration of cookie names x values x cookie sets x (clock, time zone) settings, round trip through both gateways",
-        text="Every one-character value (code points 0-255), every 2-character string over 16 special symbols, every 3-character string over 8, every string up to length 4 over an escape-like alphabet, for 3 token names, alone and between neighbours; all ordered pairs/triples of 6 awkward cookies; set_cookie -> emitted Set-Cookie line (must be one ASCII line) -> Cookie header -> request.cookies on WSGI and ASGI. Expires/Max-Age/delete_cookie under a pinned clock at 6 instants around DST changes in 5 process time zones.",
+        text="Every one-character value (code points 0-255), every 2-character string over 16 special symbols, every 3-character string over 8, every string up to length 4 over an escape-like alphabet, for 3 token names, alone and between neighbours; all ordered pairs/triples of 6 awkward cookies; set_cookie -> emitted Set-Cookie line (must be one ASCII line) -> Cookie header -> request.cookies on WSGI and ASGI. Expires/Max-Age/delete_cookie under a pinned clock at 6 instants around DST changes in 5 process time zones. Also: cookie names that spell Set-Cookie attributes (with default and with all attributes), a response object older than the set_cookie() call.",
         note="finite name/value alphabets; the client is assumed to return the first name=value pair verbatim; zoneinfo files of the image",
     ),
     "C19": dict(
         engine="vloop", level="model_checking", design_ref="DESIGN.md §3 C19",
         technique="exhaustive event enumeration against a spec-derived EventSource parser; every producer/ping-timer interleaving of the ASGI event-stream response on a virtual asyncio loop",
-        text="Every data string up to length 3 (thorough 4) over 13 line-ish characters x every subset of {event, id, retry} x {utf-8, latin-1} serialised by the library and parsed back by an event-stream parser written from the WHATWG specification; sequences of <=3 events through both SendEventResponse classes, on ASGI under every schedule of producer steps vs <=2 ping timers: one block per event, same fields, data split at CR/LF/CRLF only, pings invisible, order kept.",
+        text="Every data string up to length 3 (thorough 4) over 13 line-ish characters x every subset of {event, id, retry} x {utf-8, latin-1} serialised by the library and parsed back by an event-stream parser written from the WHATWG specification; sequences of <=3 events through both SendEventResponse classes, on ASGI under every schedule of producer steps vs <=2 ping timers: one block per event, same fields, data split at CR/LF/CRLF only, pings invisible, order kept. Also: a server that needs 2.5 ping intervals to write out each item (virtual clock).",
         note="WSGI ping interleavings belong to the thread engine (C06); trailing-terminator ambiguity accepted both ways; empty events excluded",
     ),
     "C14": dict(
         engine="explore", level="model_checking", design_ref="DESIGN.md §3 C14",
         technique="exhaustive enumeration of modification/request histories on a virtualised file clock against version bookkeeping, one long-lived app instance per history",
-        text="Every history up to depth 3 (thorough 4) over 7 modifications (rewrite same/other size, touch; +0/+1/+3600 s) x 'run the request battery here or not'; the battery issues a plain GET and 8 validator forms (ETag, Last-Modified, both, list, weak, weak in list with and without space, *) for the validators of every version recorded so far, on Files and Pages, WSGI and ASGI, each app instance living through the whole history. 304 only for the unchanged version (and empty), 200 with new content and a new ETag after a change, own ETag always revalidates. Also the return of the original copy with its old modification time (change time = now), and two requests in two threads on one Files/Pages object with a scheduling point on every source line (stale vs current validators).",
+        text="Every history up to depth 3 (thorough 4) over 7 modifications (rewrite same/other size, touch; +0/+1/+3600 s) x 'run the request battery here or not'; the battery issues a plain GET and 8 validator forms (ETag, Last-Modified, both, list, weak, weak in list with and without space, *) for the validators of every version recorded so far, on Files and Pages, WSGI and ASGI, each app instance living through the whole history. 304 only for the unchanged version (and empty), 200 with new content and a new ETag after a change, own ETag always revalidates. Also the return of the original copy with its old modification time (change time = now), and two requests in two threads on one Files/Pages object with a scheduling point on every source line (stale vs current validators). Also: both validators in either header order, HEAD, and four cacheability settings as further variants.",
         note="os.stat wrapped for the harness tree (mtime = ctime = virtual time); a same-second change is not judged for a request carrying only the date; depth bound",
     ),
     "C18": dict(
         engine="explore", level="exploration", design_ref="DESIGN.md §3 C18",
         technique="bounded exhaustive enumeration of URL reconstruction inputs and component-replacement subsets against component-wise expectations",
-        text="Reconstruction over 4 schemes x 6 server addresses x 4 Host values x 2 root paths x 7 paths x 3 queries from a WSGI environ and an ASGI scope (compared with the components and with each other); replacement over 12 base URLs (named/IPv4/IPv6, user/password/port present or not) x every subset of <=4 (thorough: all 8) components x 1-3 new values each incl. passwords with '@', ':' and '%40'; the three query helpers on 6 base queries against list-of-pairs semantics; repr password masking.",
+        text="Reconstruction over 4 schemes x 6 server addresses x 4 Host values x 2 root paths x 7 paths x 3 queries from a WSGI environ and an ASGI scope (compared with the components and with each other); replacement over 12 base URLs (named/IPv4/IPv6, user/password/port present or not) x every subset of <=4 (thorough: all 8) components x 1-3 new values each incl. passwords with '@', ':' and '%40'; the three query helpers on 6 base queries against list-of-pairs semantics; repr password masking. Also: ASGI scopes without a server address (absent, None, name with no port), port 0.",
         note="finite value menus; two known findings ('?' and '#' in the decoded path) are listed in known_findings.json",
     ),
     "C02": dict(
         engine="explore", level="exploration", design_ref="DESIGN.md §3 C02",
         technique="bounded exhaustive enumeration of (file size, chunk size, Range, If-Range, method, interface) against a set-semantics range reference and a sequential multipart/byteranges reader",
-        text="8 (thorough 15) file sizes x chunk sizes {1,2,4,default} x every ordered set of <=2 (3) range specs over {0,1,2,size-1,size,size+1} plus digit-boundary and malformed headers x GET/HEAD x WSGI, ASGI and ASGI with the zero-copy-send extension; If-Range in 7 forms on a 22-header subset. Status, Content-Range, exact slices, multipart part framing and order, declared length = bytes sent, HEAD = GET headers with empty body, ASGI event protocol incl. more_body of zero-copy messages. Also same-path histories (the file replaced by another size between requests) and two requests in progress at once on one Files object: every interleaving of the two WSGI response iterables, all ASGI schedules with <=2 deviations; each response must equal the one served alone.",
+        text="8 (thorough 15) file sizes x chunk sizes {1,2,4,default} x every ordered set of <=2 (3) range specs over {0,1,2,size-1,size,size+1} plus digit-boundary and malformed headers x GET/HEAD x WSGI, ASGI and ASGI with the zero-copy-send extension; If-Range in 7 forms on a 22-header subset. Status, Content-Range, exact slices, multipart part framing and order, declared length = bytes sent, HEAD = GET headers with empty body, ASGI event protocol incl. more_body of zero-copy messages. Also same-path histories (the file replaced by another size between requests) and two requests in progress at once on one Files object: every interleaving of the two WSGI response iterables, all ASGI schedules with <=2 deviations; each response must equal the one served alone. Also: one FileResponse object answering request sequences (differential against a fresh object) and two requests at once (WSGI merge orders, ASGI tasks with the executor as a yield point, zero-copy); file sizes and range ends around the default chunk size.",
         note="zero-copy server is a model of the extension text; sizes <= 1000; boundary pinned by seeding random",
     ),
     "C07": dict(
         engine="explore", level="exploration", design_ref="DESIGN.md §3 C07",
         technique="bounded exhaustive enumeration of request paths x app kinds x interfaces x directory spellings against a lexical resolver, with an audit hook on open()",
-        text="Every path of <=3 (thorough 4) segments over a 14-symbol alphabet (dot segments, empty segments, '..name', percent sequences, non-ASCII, index/page names) with and without trailing slash x Files/Pages x WSGI/ASGI x directory given as absolute path, relative path (working directory changed after construction) or package-relative, on a real temporary tree with parent/sibling decoys ('rootx', 'root.html', same-named files above); served bytes, not-found, redirect target (followed once) compared with a hand-written lexical resolver; every open() below the sandbox but outside the directory is a violation. Also two requests at once on one app object: WSGI in two controlled threads with a scheduling point on every source line of the static-file modules (<=1 preemption, thorough 2), ASGI as two tasks with gated sends.",
+        text="Every path of <=3 (thorough 4) segments over a 14-symbol alphabet (dot segments, empty segments, '..name', percent sequences, non-ASCII, index/page names) with and without trailing slash x Files/Pages x WSGI/ASGI x directory given as absolute path, relative path (working directory changed after construction) or package-relative, on a real temporary tree with parent/sibling decoys ('rootx', 'root.html', same-named files above); served bytes, not-found, redirect target (followed once) compared with a hand-written lexical resolver; every open() below the sandbox but outside the directory is a violation. Also two requests at once on one app object: WSGI in two controlled threads with a scheduling point on every source line of the static-file modules (<=1 preemption, thorough 2), ASGI as two tasks with gated sends. Also: apps built earlier in the process from the same relative text in another working directory and from a same-named package further along sys.path; a custom not-found application with non-default cache settings; HEAD.",
         note="no symlinks; POSIX; trailing slash on a file path may be served or not found",
     ),
     "C20": dict(
         engine="explore", level="exploration", design_ref="DESIGN.md §3 C20",
         technique="bounded exhaustive enumeration of inner applications x wrapper stacks x requests, differential against the bare application",
-        text="14 response recipes (every response class, two Set-Cookie lines, unknown status codes, 0..3-chunk streams, file with Range, event stream, body echo) and 10 raw WSGI / 7 raw ASGI applications (list, tuple, generator, empty iterable, iterable with close(), 1..3 body messages, raising before/after start and after the first chunk) x every stack of depth 1..3 over identity middleware, header-editing middleware and identity view decorator x 4 requests x both interfaces: same status, same headers (Set-Cookie lines separate), same body, inner app run exactly once, only the edited header differs, same exception class. Two requests in progress at once through one wrapped app object: all interleavings of the WSGI response iterables, ASGI schedules with <=2 deviations, and WSGI threads with line-level points in middleware.py.",
+        text="14 response recipes (every response class, two Set-Cookie lines, unknown status codes, 0..3-chunk streams, file with Range, event stream, body echo) and 10 raw WSGI / 7 raw ASGI applications (list, tuple, generator, empty iterable, iterable with close(), 1..3 body messages, raising before/after start and after the first chunk) x every stack of depth 1..3 over identity middleware, header-editing middleware and identity view decorator x 4 requests x both interfaces: same status, same headers (Set-Cookie lines separate), same body, inner app run exactly once, only the edited header differs, same exception class. Two requests in progress at once through one wrapped app object: all interleavings of the WSGI response iterables, ASGI schedules with <=2 deviations, and WSGI threads with line-level points in middleware.py. Also: raw applications with whitespace around Set-Cookie lines, a last body message without more_body, header bytes that are valid UTF-8; bodies around the spool size.",
         note="repeated non-cookie headers may be combined (same meaning per RFC 9110); finite recipe list",
     ),
     "C06": dict(
         engine="vthreads+vloop", level="model_checking", design_ref="DESIGN.md §3 C06",
         technique="stateless preemption-bounded exploration of real threads under a baton scheduler (WSGI) and exhaustive interleaving exploration on a virtual asyncio loop (ASGI), with deadlock/leak detection",
-        text="WSGI SendEventResponse runs on real threads of which only one holds the baton; queue.Queue, the pool future and the executor are replaced by scheduler-aware shims and every source line of render_stream/push is a scheduling point (sys.settrace): all schedules with <=2 preemptions at primitive operations and <=1 with line points (thorough 3/2), for every producer length <=2 (3), failure step, close point and ping-timeout budget; deadlock = no enabled thread. ASGI StreamResponse/SendEventResponse: producer steps, send completions, the disconnect and ping timers are explicit events of a hand-stepped event loop, all interleavings explored. Oracle: the call returns, no thread/task/timer left, generator cleanup exactly once, delivered = prefix of yielded, the producer's exception surfaces when nobody left.",
+        text="WSGI SendEventResponse runs on real threads of which only one holds the baton; queue.Queue, the pool future and the executor are replaced by scheduler-aware shims and every source line of render_stream/push is a scheduling point (sys.settrace): all schedules with <=2 preemptions at primitive operations and <=1 with line points (thorough 3/2), for every producer length <=2 (3), failure step, close point and ping-timeout budget; deadlock = no enabled thread. ASGI StreamResponse/SendEventResponse: producer steps, send completions, the disconnect and ping timers are explicit events of a hand-stepped event loop, all interleavings explored. Oracle: the call returns, no thread/task/timer left, generator cleanup exactly once, delivered = prefix of yielded, the producer's exception surfaces when nobody left. Also: producers that are classes with aclose() rather than generators, sources whose __iter__/__aiter__ raises, a server whose send() fails from call k on, no task left pending after the call, release completes when nothing disconnects; a virtual clock under the thread scheduler with a server that needs 2.5 ping intervals per item.",
         note="line granularity; shim primitives bound to the real ones by a differential self-test; n <= 3 items, <= 2 timeouts",
     ),
     "C05": dict(
         engine="explore+vloop", level="model_checking", design_ref="DESIGN.md §3 C05",
         technique="exhaustive enumeration of response recipes x fault positions judged by prefix-closed gateway-protocol automata; disconnect positions as interleavings on the virtual loop",
-        text="1176 small-response recipes (7 status codes incl. unknown ones x 7 content kinds x 4 header sets x 3 cookie sets), streams and event streams of 0..3 items with the producer failing at every step, file responses x 5 download names (ASCII, Latin-1, CJK, quote) x 8 Range variants incl. every error path x GET/HEAD x chunk sizes, on WSGI, ASGI and ASGI+zero-copy; for each, send() failing at every call index (ASGI) / close() after every item (WSGI); http.disconnect at every interleaving position of the ASGI streaming responses. The emitted sequence must be accepted by the ASGI http / WSGI automata as complete (no fault) or as a legal prefix (fault).",
+        text="1176 small-response recipes (7 status codes incl. unknown ones x 7 content kinds x 4 header sets x 3 cookie sets), streams and event streams of 0..3 items with the producer failing at every step, file responses x 5 download names (ASCII, Latin-1, CJK, quote) x 8 Range variants incl. every error path x GET/HEAD x chunk sizes, on WSGI, ASGI and ASGI+zero-copy; for each, send() failing at every call index (ASGI) / close() after every item (WSGI); http.disconnect at every interleaving position of the ASGI streaming responses. The emitted sequence must be accepted by the ASGI http / WSGI automata as complete (no fault) or as a legal prefix (fault). Also: process histories of HTTP requests and refused WebSocket handshakes (denial-response extension on/off) judged answer by answer; a zero-byte file.",
         note="finite argument menus; a failing send raises OSError; header arguments without control characters (C13's subject)",
     ),
     "C04": dict(
         engine="explore", level="exploration", design_ref="DESIGN.md §3 C04",
         technique="bounded exhaustive differential enumeration: the same abstract request and the same program recipe run on the WSGI and the ASGI stack, outputs compared",
-        text="Request view: 3360 abstract requests (methods x ASCII/non-ASCII/empty paths x roots x 5 queries x 14 header menus x client present/absent) and 5 body kinds under every two-way split (plus empty pieces and a three-way split), dumped by an echo view (method, URL and parts, headers, query, cookies, content type/length, accepted types, client, date, referrer, body, JSON, form fields and files, path parameters). Responses: 1176 small-response recipes, streams and event streams, FileResponse x chunk sizes {2,4,8,default} x 13 Range values x 3 If-Range values x GET/HEAD. Applications: nested Subpaths with Pages/Files/Router mounted (non-ASCII mount included), Hosts, middleware over mounts, Files with handle_404, Pages with cache settings, over 43 paths x 5 Host values x 7 conditional/range header sets x 2 roots. Equality of status, header multiset, body and exception class; only the ASGI event stream's Connection header is exempt.",
+        text="Request view: 3360 abstract requests (methods x ASCII/non-ASCII/empty paths x roots x 5 queries x 14 header menus x client present/absent) and 5 body kinds under every two-way split (plus empty pieces and a three-way split), dumped by an echo view (method, URL and parts, headers, query, cookies, content type/length, accepted types, client, date, referrer, body, JSON, form fields and files, path parameters). Responses: 1176 small-response recipes, streams and event streams, FileResponse x chunk sizes {2,4,8,default} x 13 Range values x 3 If-Range values x GET/HEAD. Applications: nested Subpaths with Pages/Files/Router mounted (non-ASCII mount included), Hosts, middleware over mounts, Files with handle_404, Pages with cache settings, over 43 paths x 5 Host values x 7 conditional/range header sets x 2 roots. Equality of status, header multiset, body and exception class; only the ASGI event stream's Connection header is exempt. Also: both validators in one request in either order, JSON request texts in every encoding json.loads(bytes) would guess under 9 content types, small response objects reused across requests, the C12 mutation grammar as a differential.",
         note="finite recipe and request menus; duplicate request header names excluded (gateway-dependent); no hand-written expected values",
     ),
     "C12": dict(
         engine="explore", level="exploration", design_ref="DESIGN.md §3 C12",
         technique="exhaustive enumeration inside a deterministic mutation grammar over every request-derived entry point, both interfaces",
-        text="For 11 request headers: every single edit (delete, duplicate delimiter, insert each of 19 hostile characters at every position, truncate at every position, number/charset/boundary replacements) of 2-4 valid base values plus all noise strings up to length 3, through all header-derived accessors incl. url/referrer components and repr; paths with NUL/CR/LF/invalid UTF-8/over-long segments and hostile query strings through url, query_params, Router (all convertors), Subpaths, Hosts, Files, Pages; JSON, urlencoded and multipart bodies valid / truncated at every position / every byte replaced by 6 (thorough 10) hostile bytes / deleted, with 16 charsets and 11 boundary variants, huge numbers, deep nesting, header lines without colon; Range/If-Range/If-None-Match/If-Modified-Since edits through FileResponse, Files, Pages. Outcome must be a value, an HTTP 4xx exception, ClientDisconnect or 'Stream consumed'. Thorough adds double insertions.",
+        text="For 11 request headers: every single edit (delete, duplicate delimiter, insert each of 19 hostile characters at every position, truncate at every position, number/charset/boundary replacements) of 2-4 valid base values plus all noise strings up to length 3, through all header-derived accessors incl. url/referrer components and repr; paths with NUL/CR/LF/invalid UTF-8/over-long segments and hostile query strings through url, query_params, Router (all convertors), Subpaths, Hosts, Files, Pages; JSON, urlencoded and multipart bodies valid / truncated at every position / every byte replaced by 6 (thorough 10) hostile bytes / deleted, with 16 charsets and 11 boundary variants, huge numbers, deep nesting, header lines without colon; Range/If-Range/If-None-Match/If-Modified-Since edits through FileResponse, Files, Pages. Outcome must be a value, an HTTP 4xx exception, ClientDisconnect or 'Stream consumed'. Thorough adds double insertions. Also: digit look-alikes wherever a number is expected, path components of 240..260 bytes and paths of 3990..4110 bytes.",
         note="exhaustive only inside the edit grammar - the weakest relation between bound and unbounded claim of all properties; header values without CR/LF/NUL (a server rejects them first)",
     ),
 }
